@@ -38,4 +38,30 @@ def admitsAll (p : Problem) : Sim → List Nat → Bool
   | _, [] => true
   | σ, a :: as => decide (a < p.N) && envAdmits p σ a && admitsAll p (simStep p v0 σ a) as
 
+/-! ### the intended `current_depot` rule -/
+
+/-- the Spec as stated, except that the vehicle still out at the end is not charged its way home -/
+def v1 : Variant := { chargeLast := false }
+
+/-- capacity of the running vehicle -/
+def vehCap (p : Problem) (σ : Sim) : Int :=
+  match σ.veh with
+  | some d => p.cap d
+  | none => 0
+
+/-- the visits the mask offers under the intended `current_depot` rule: as `envAdmits`, but the way home is the vehicle's
+OWN depot and a pickup must fit the vehicle's OWN capacity -/
+def envAdmitsX (p : Problem) (σ : Sim) (a : Nat) : Bool :=
+  if a < p.K then
+    (decide (a ∉ σ.opened) && σ.veh.isNone && σ.onboard.isEmpty && (!σ.opened.isEmpty || decide (a = 0))) ||
+    (σ.veh == some a && σ.onboard.isEmpty && depLeft p σ) ||
+    (allDone p σ && (σ.veh == some a || (σ.veh.isNone && decide (a = σ.pos))))
+  else
+    σ.veh.isSome && decide (a ∉ σ.served) &&
+      (if a < p.K + p.h then decide ((σ.onboard.length : Int) + 1 ≤ vehCap p σ) else decide ((a - p.h) ∈ σ.onboard))
+
+def admitsAllX (p : Problem) : Sim → List Nat → Bool
+  | _, [] => true
+  | σ, a :: as => decide (a < p.N) && envAdmitsX p σ a && admitsAllX p (simStep p v1 σ a) as
+
 end Rl4co.Spec.Mdcpdp
